@@ -9,6 +9,7 @@ import (
 	"fmt"
 	"math/rand"
 	"os"
+	"sync"
 	"time"
 )
 
@@ -103,6 +104,7 @@ func runOracle(args []string) {
 	c.deadline = time.Now().Add(time.Duration(budget) * time.Second)
 	c.out = bufio.NewWriter(os.Stdout)
 	processPrelude()
+	startWatchdog(c)
 	f, ok := oracles[c.pid]
 	if ok {
 		f(c)
@@ -110,8 +112,50 @@ func runOracle(args []string) {
 	c.finish()
 }
 
+// watchdog: the inputs of the guarded calls that are running (innermost last). When the innermost one has not returned
+// for wdLimit, the code under test hangs on it: the input is reported (class "hang") and the process ends — a parser
+// that loops would otherwise hold the whole oracle until the driver's time limit, with no input to show.
+type wdEntry struct {
+	input map[string]any
+	since time.Time
+}
+
+var (
+	wdMu    sync.Mutex
+	wdStack []wdEntry
+)
+
+const wdLimit = 120 * time.Second
+
+func startWatchdog(c *oracleCtx) {
+	go func() {
+		for {
+			time.Sleep(time.Second)
+			wdMu.Lock()
+			if n := len(wdStack); n > 0 && time.Since(wdStack[n-1].since) > wdLimit {
+				rec := map[string]any{"kind": "violation", "property": c.pid, "class": "hang",
+					"what": fmt.Sprintf("the code under test did not return within %v on this input; the oracle stops here", wdLimit), "input": wdStack[n-1].input}
+				b, _ := json.Marshal(rec)
+				fmt.Fprintln(os.Stdout, string(b))
+				st, _ := json.Marshal(map[string]any{"kind": "stat", "stats": map[string]any{"cases": c.cases, "stopped-by-watchdog": 1}})
+				fmt.Fprintln(os.Stdout, string(st))
+				os.Exit(0)
+			}
+			wdMu.Unlock()
+		}
+	}()
+}
+
 // guard runs f, turning a panic into a violation of the given class
 func guard(c *oracleCtx, class string, input map[string]any, f func()) {
+	wdMu.Lock()
+	wdStack = append(wdStack, wdEntry{input: input, since: time.Now()})
+	wdMu.Unlock()
+	defer func() {
+		wdMu.Lock()
+		wdStack = wdStack[:len(wdStack)-1]
+		wdMu.Unlock()
+	}()
 	defer func() {
 		if r := recover(); r != nil {
 			c.violation(class, fmt.Sprintf("panic: %v", r), input)
